@@ -7,6 +7,7 @@ set_option linter.unusedSimpArgs false
 set_option linter.unusedVariables false
 
 namespace US
+open GoInt
 
 /-! ### bytes -/
 
@@ -31,25 +32,6 @@ theorem beNat_beBytes (n v : Nat) : beNat (beBytes n v) = v % 256 ^ n := by
       simp [UInt8.toNat_ofNat']
     rw [h1, Nat.pow_succ, Nat.mul_comm (256 ^ n) 256, Nat.mod_mul]
     omega
-
-/-! ### Go conversions -/
-
-theorem toU64_lt (v : Int) : toU64 v < 18446744073709551616 := by unfold toU64; omega
-theorem toU32_lt (v : Int) : toU32 v < 4294967296 := by unfold toU32; omega
-
-def In64 (v : Int) : Prop := -9223372036854775808 ≤ v ∧ v < 9223372036854775808
-def In32 (v : Int) : Prop := -2147483648 ≤ v ∧ v < 2147483648
-
-theorem toS64_toU64 (v : Int) (h : In64 v) : toS64 (toU64 v) = v := by
-  unfold In64 at h; unfold toS64 toU64; split <;> omega
-theorem toS32_toU32 (v : Int) (h : In32 v) : toS32 (toU32 v) = v := by
-  unfold In32 at h; unfold toS32 toU32; split <;> omega
-theorem toS64_in (n : Nat) : In64 (toS64 n) := by unfold In64 toS64; split <;> omega
-theorem toS32_in (n : Nat) : In32 (toS32 n) := by unfold In32 toS32; split <;> omega
-theorem wrap64_in (v : Int) : In64 (wrap64 v) := toS64_in _
-theorem wrap64_id (v : Int) (h : In64 v) : wrap64 v = v := toS64_toU64 v h
-theorem toU32_toS32 (n : Nat) (h : n < 4294967296) : toU32 (toS32 n) = n := by
-  unfold toU32 toS32; split <;> omega
 
 /-! ### keyed lists behave as a map -/
 
